@@ -650,12 +650,12 @@ pub fn boxes_for(id: &str, quick: bool) -> Vec<Box_> {
                     }
                 } else {
                     if matches!(ana, Ana::FpP | Ana::FpNp) {
-                        v.push(mk("3 tasks T<=6 J<=3 C<=3", ana, 3, sporadic_grid(6, 3), 3, &[], false));
+                        v.push(mk("3 tasks T<=5 J<=2 C<=3", ana, 3, sporadic_grid(5, 2), 3, &[], false));
                         v.push(mk("4 tasks T<=6(even J) C<=2", ana, 4,
                             vec![2u64, 3, 4, 6].into_iter().flat_map(|t| [0u64, 1].into_iter().map(move |j| ArrSpec::Sporadic { t, j })).collect(),
                             2, &[], false));
                     } else {
-                        v.push(mk("3 tasks T<=5 J<=2 C<=3 all layouts", ana, 3, sporadic_grid(5, 2), 3, &[], false));
+                        v.push(mk("3 tasks T<=4 J<=1 C<=3 all layouts", ana, 3, sporadic_grid(4, 1), 3, &[], false));
                     }
                     v.push(mk("2 tasks T<=8 J{0,1,2,4,9} C<=3", ana, 2,
                         (1..=8u64).flat_map(|t| [0u64, 1, 2, 4, 9].into_iter().map(move |j| ArrSpec::Sporadic { t, j })).collect(),
